@@ -182,6 +182,12 @@ class AsyncIOClient(ABC):
                         return
                     
                     await self._connect_impl()            
+                    if self._state == State.CLOSED:
+                        # close() ran while the connection attempt was pending: CLOSED is final
+                        self.logger.info("Object terminated while connecting. Closing the new connection.")
+                        if self.writer:
+                            self.writer.close()
+                        return
                     await self._update_state(State.CONNECTED)
                     self.logger.info("Connected to the gateway.")
     
